@@ -10,7 +10,7 @@ def model_and_gen(ck):
     w = ck.work
     r = tlc_must_pass(tlc("MC_Blind", "MC_Blind_quick.cfg" if q else "MC_Blind_thorough.cfg", w, workers=12 if q else 16, timeout=3000,
                           xmx="24g"), "Blind model")
-    ck.add_tlc(r, "blinding machine over all skeletons (inputs conf/explicit, issuance, every arrangement of marked / unmarked / fee / "
+    ck.add_tlc(r, "blinding machine over all skeletons (inputs conf/explicit, seven issuance shapes, output modes full / value-only / asset-only, every arrangement of marked / unmarked / fee / "
                   "zero-value outputs), all factor choices in Z_5: BlindedVerifies, AllMarkedBlinded, TampersRejected")
     bl, ex = os.path.join(w, "blind.ndjson"), os.path.join(w, "explicit.ndjson")
     r = tlc_must_pass(tlc("Gen_Blind", "Gen_Blind_quick.cfg" if q else "Gen_Blind_thorough.cfg", w,
@@ -22,10 +22,11 @@ def model_and_gen(ck):
 def run(ck):
     q = ck.tier == "quick"
     bl, _ = model_and_gen(ck)
-    rep = vh(["blind", "replay", "--cases", bl, "--seed", ck.seed, "--k", 1 if q else 3, "--threads", 8 if q else 16, "--props", "C04"],
+    rep = vh(["blind", "replay", "--cases", bl, "--seed", ck.seed, "--k", 1 if q else 3, "--threads", 12 if q else 16, "--props", "C04"],
              timeout=7000)
     ck.add_vh(rep, distinct_key="distinct_cases")
-    ck.cov["rule"] = ("one case per skeleton = (spent outputs confidential / explicit over one or two assets, optional explicit issuance, "
+    ck.cov["rule"] = ("one case per skeleton = (spent outputs confidential / explicit over one or two assets; issuance: none, asset amount, amount + "
+                      "reissuance tokens, tokens only (Null amount), and amount / tokens committed (both or one of them), ids from the constructors; "
                       "arrangement of marked, unmarked, fee and zero-value outputs with every non-empty marked subset); each is built with "
                       "real keys and standard scripts, amounts scaled per asset across 1 .. 2.1e15, blinded by Transaction::blind with the "
                       "spent-output secrets in the documented order, then: verify_tx_amt_proofs, unblind of every marked output with the "
